@@ -56,11 +56,11 @@ type realSidecar struct {
 }
 
 // startRealSidecar retries on another port pair when the process that answers is not ours.
-func startRealSidecar(bin, dir, promURL string, tsdbHits func() int64) (*realSidecar, error) {
+func startRealSidecar(bin, dir, promURL string, tsdbHits func() int64, extra ...string) (*realSidecar, error) {
 	var rs *realSidecar
 	var err error
 	for try := 0; try < 6; try++ {
-		rs, err = startRealSidecarOnce(bin, dir, promURL, tsdbHits)
+		rs, err = startRealSidecarOnce(bin, dir, promURL, tsdbHits, extra...)
 		if err == nil || strings.Contains(err.Error(), "exited during start-up") {
 			return rs, err
 		}
@@ -68,7 +68,26 @@ func startRealSidecar(bin, dir, promURL string, tsdbHits func() int64) (*realSid
 	return rs, err
 }
 
-func startRealSidecarOnce(bin, dir, promURL string, tsdbHits func() int64) (*realSidecar, error) {
+// RealSidecar is the real `kvass sidecar` process, for checks of other packages.
+type RealSidecar struct{ rs *realSidecar }
+
+// StartRealSidecar starts bin/kvass sidecar with extra flags next to a fake Prometheus the caller owns.
+func StartRealSidecar(bin, dir, promURL string, tsdbHits func() int64, extra ...string) (*RealSidecar, error) {
+	_ = os.MkdirAll(filepath.Join(dir, "store"), 0755)
+	rs, err := startRealSidecar(bin, dir, promURL, tsdbHits, extra...)
+	return &RealSidecar{rs}, err
+}
+
+// API is the base URL of the sidecar's API.
+func (r *RealSidecar) API() string { return r.rs.api }
+
+// Stderr is what the process has logged so far.
+func (r *RealSidecar) Stderr() string { return r.rs.stderr.String() }
+
+// Kill sends SIGKILL and waits.
+func (r *RealSidecar) Kill() { r.rs.kill() }
+
+func startRealSidecarOnce(bin, dir, promURL string, tsdbHits func() int64, extra ...string) (*realSidecar, error) {
 	ap, pp := portPair()
 	if ap == 0 {
 		return &realSidecar{stderr: &bytes.Buffer{}}, fmt.Errorf("no free port pair in this worker's range (harness)")
@@ -77,6 +96,7 @@ func startRealSidecarOnce(bin, dir, promURL string, tsdbHits func() int64) (*rea
 	rs.cmd = exec.Command(bin, "sidecar", "--config.file=", "--config.output-file="+filepath.Join(dir, "out.yaml"),
 		"--store.path="+filepath.Join(dir, "store"), fmt.Sprintf("--web.api-addr=127.0.0.1:%d", ap),
 		fmt.Sprintf("--web.proxy-addr=127.0.0.1:%d", pp), "--prometheus.url="+promURL, fmt.Sprintf("--inject.proxy=http://127.0.0.1:%d", pp))
+	rs.cmd.Args = append(rs.cmd.Args, extra...)
 	rs.cmd.Stderr = rs.stderr
 	rs.cmd.Stdout = rs.stderr
 	if err := rs.cmd.Start(); err != nil {
